@@ -420,7 +420,11 @@ pub fn run_on_this_thread(plan: &Plan, keep_trace: bool) -> RunOutput {
                 }
             }
             Err(p) => {
-                let (msg, injected) = panic_message(&p);
+                let (mut msg, injected) = panic_message(&p);
+                let api = w.api.replace("");
+                if !api.is_empty() {
+                    msg = format!("{msg} [inside {api}]");
+                }
                 let ctx = w.cur_ctx();
                 w.ctx.borrow_mut().clear();
                 if injected {
